@@ -39,12 +39,13 @@ def run(chk):
       'the documented type order is not required: only the order laws are evaluated on the observed lt',
   ]
   # 1. design level: documented rules (laws hold outside the zones, TLC exhibits the counter-examples inside)
-  data, r = tlc.export_json('OrderDesign', _tier_cfg('design', tier), timeout=1500)
+  data, r = tlc.export_json('OrderDesign', _tier_cfg('design', tier), timeout=1500, workers=tlc.DEFAULT_WORKERS)
   chk.add_tlc(r)
   if not r.ok:
     raise tlc.TLCError(f'design model: {r.violated} violated:\n' + r.out[-3000:])
   # 2. design level: canonical key order (the proposed repair) satisfies every law on the whole universe
-  _, r2 = tlc.export_json('OrderDesign', _tier_cfg('fixed', tier), name='export-OrderDesign-fixed', timeout=1500)
+  _, r2 = tlc.export_json('OrderDesign', _tier_cfg('fixed', tier), name='export-OrderDesign-fixed', timeout=1500,
+                          workers=tlc.DEFAULT_WORKERS)
   chk.add_tlc(r2)
   if not r2.ok:
     raise tlc.TLCError(f'repaired design model: {r2.violated} violated:\n' + r2.out[-3000:])
